@@ -149,12 +149,20 @@ def random_case(rng, tier):
             schedule.append(action)
     elif flavour == 'subtimeout':
         opts['subscribe_timeouts'] = rng.choice([['rpc'], ['broadcast'], ['rpc', 'broadcast']])
+    case_fault = None
+    if flavour in ('quiescent', 'timed') and rng.random() < 0.12:
+        # a pause / play hook of the process raises: the error goes to whoever asked - the direct caller as an exception,
+        # the remote one as an error reply - and the process is left as the direct call leaves it
+        case_fault = ['hook:' + rng.choice(['on_pausing', 'on_paused', 'on_playing']) + rng.choice(['', ':post']), rng.choice([0, 0, 1])]
     if flavour != 'subtimeout' and rng.random() < 0.25:
         # the controlled process is one recreated from a checkpoint with the communicator in its load context (what a
         # launcher's continue task does), saved right after construction or at its first rest
         from simkit import persist
         opts['via_bundle'] = {'medium': rng.choice(persist.MEDIA), 'after': rng.choice(['created', 'rest'])}
-    return {'program': program, 'schedule': schedule, 'opts': opts, 'flavour': flavour}
+    case = {'program': program, 'schedule': schedule, 'opts': opts, 'flavour': flavour}
+    if case_fault:
+        case['fault'] = case_fault
+    return case
 
 
 def shrink(case):
@@ -215,6 +223,8 @@ def run(case):
     result = Result()
     flavour = case.get('flavour', 'quiescent')
     result.counters[f'flavour:{flavour}'] += 1
+    if case.get('fault'):
+        result.counters['hook_fault:configured'] += 1
     if case['opts'].get('via_bundle'):
         result.counters[f'restored_process:{case["opts"]["via_bundle"]["after"]}:{case["opts"]["via_bundle"]["medium"]}'] += 1
     first = _run_once(case, result, direct=False)
@@ -255,6 +265,8 @@ def _run_once(case, result, direct=False, broadcast_fault=None):
             if action['act'] in ('rpc', 'bcast'):
                 action['act'] = 'direct'
     engine = common.new_engine(run_case, record_hooks=False)
+    if case.get('fault'):
+        engine.world.fault = tuple(case['fault'])
     call_results = []
     try:
         recorder = Recorder()
@@ -384,6 +396,10 @@ def _run_once(case, result, direct=False, broadcast_fault=None):
                         outcome = ('exception', 'RemoteException', '')
                     else:
                         outcome = comm.unwrap(value)
+                        if outcome[0] == 'exception':
+                            # the action future of a direct call that failed (e.g. a pause hook raised): over the wire any
+                            # error of the handler arrives as a RemoteException
+                            outcome = ('exception', 'RemoteException', '')
                     broadcast = action.get('orig_act') == 'bcast'
                 else:
                     outcome = comm.unwrap(record.result)
@@ -461,6 +477,7 @@ def _oracle_single(case, engine, proc, communicator, data, result, late_reply, c
             if handler_values:
                 expected = [_normal(comm.unwrap(v)) if not (isinstance(v, tuple) and v and v[0] == 'raised')
                             else ('exception', 'RemoteException', '') for v in handler_values]
+                expected = [e if e[0] != 'exception' else ('exception', 'RemoteException', '') for e in expected]
                 got = _normal(outcome)
                 if got[0] == 'exception':
                     got = ('exception', got[1], '')
